@@ -446,6 +446,7 @@ class Instr:
         self.calls = 0
         self.bytes = 0
         self.fields = 0
+        self.reparsed = 0
         self.oracle = []
 
     def __enter__(self):
@@ -472,8 +473,14 @@ class Instr:
                 d = BytesIO.read(self_, n)
                 me.bytes += len(d)
                 return d
+
+        class InnerBytesIO(CountingBytesIO):
+            """what connection.py builds around a payload it has already read once"""
+            def __init__(self_, initial=b""):
+                CountingBytesIO.__init__(self_, initial)
+                me.reparsed += len(initial)
         self.stream_cls = CountingBytesIO
-        C.BytesIO = CountingBytesIO
+        C.BytesIO = InnerBytesIO
         orig_fb = K.EllipticCurvePublicKey.__dict__["fromBytes"].__func__
         orig_vf = K.EllipticCurvePublicKey.verify
 
@@ -582,11 +589,11 @@ def run_dec(R, hexs, extra):
         stream = ins.stream_cls(data)
         try:
             v = R.S.Serializable.loadb(stream, **kw)
-            out = "ok %s %d c=%d" % (canon(R, v), stream.tell(), ins.cost())
+            out = "ok %s %d c=%d r=%d" % (canon(R, v), stream.tell(), ins.cost(), ins.reparsed)
         except RecursionError:
-            out = "err:RecursionError c=0"
+            out = "err:RecursionError c=0 r=0"
         except Exception as e:
-            out = "err:%s c=%d" % (ename(R, e), ins.cost())
+            out = "err:%s c=%d r=%d" % (ename(R, e), ins.cost(), ins.reparsed)
         seen = []
         for o in ins.oracle:
             if o not in seen:
@@ -1199,7 +1206,7 @@ def run(ctx):
     cases.append(make_case(R, "handshake-enc", ops))
 
     # random values: encode, decode the encoding, decode concatenations
-    n = ctx.scale(250, 30000)
+    n = ctx.scale(250, 60000)
     for ci in range(n):
         ops = []
         vs = []
